@@ -42,7 +42,7 @@ fn series(rng: &mut Rng, len: usize) -> Vec<f64> {
     let m = null_mask(rng, pat, len);
     let style = rng.below(3);
     let mut cur = 0i64;
-    (0..len).map(|i| if m[i] { f64::NAN } else {
+    (0..len).map(|i| if m[i] { vh::nan_at(i) } else {
         match style { 0 => rng.range(-3, 3) as f64, 1 => { cur += rng.range(0, 2); cur as f64 } _ => { cur -= rng.range(0, 2); cur as f64 } } }).collect()
 }
 
